@@ -15,7 +15,7 @@
 #include "vf_walk.h"
 
 #define VF_L CBOR_MAX_STACK_SIZE
-enum { K_SCEN = VC_USER, K_LOAD, K_COPY, K_SALLOC, K_BUILD, K_GROW, K_SINGLE, K_FAILSTOP, K_PAIR, K_REPORTED, K_ABSORBED, K_MAXN, K_DEEP };
+enum { K_SCEN = VC_USER, K_LOAD, K_COPY, K_SALLOC, K_BUILD, K_GROW, K_SINGLE, K_FAILSTOP, K_PAIR, K_REPORTED, K_ABSORBED, K_MAXN, K_DEEP, K_BAD_LOADS };
 enum { SC_LOAD = 1, SC_COPY, SC_SALLOC, SC_BUILDER, SC_GROW };
 
 static unsigned dfs_k, cdepth = 2;
@@ -39,7 +39,10 @@ struct scen {
   int origin_ctree;
   int which;           /* SC_BUILDER / SC_GROW: table index */
   int step;            /* SC_GROW: elements already in the container */
+  bool bad;            /* SC_LOAD: an input that is rejected (or incomplete) even without any refusal */
 };
+static int bad_code; /* error code of the fault-free run of the current bad input */
+static size_t bad_k = 3;
 
 /* ------------------------------------------------------------------ builders */
 static const unsigned char PAY[4] = {1, 2, 3, 4};
@@ -154,7 +157,7 @@ static void describe(const struct scen* s, const struct sched* sc) {
   memcpy(d + o, &sc->k2, 8); o += 8;
   if (s->kind == SC_LOAD) { size_t n = s->n > 4096 ? 4096 : s->n; memcpy(d + o, s->in, n); o += n; }
   if (s->kind == SC_COPY || s->kind == SC_SALLOC) { d[o++] = (uint8_t)s->origin_ctree; size_t n = s->origin_len > 4096 ? 4096 : s->origin_len; memcpy(d + o, s->origin, n); o += n; }
-  vf_case(s->kind == SC_LOAD ? "fault-load" : s->kind == SC_COPY ? "fault-copy" : s->kind == SC_SALLOC ? "fault-salloc" : s->kind == SC_BUILDER ? "fault-builder" : "fault-grow", d, o);
+  vf_case(s->kind == SC_LOAD ? (s->bad ? "fault-loadbad" : "fault-load") : s->kind == SC_COPY ? "fault-copy" : s->kind == SC_SALLOC ? "fault-salloc" : s->kind == SC_BUILDER ? "fault-builder" : "fault-grow", d, o);
 }
 
 /* returns the number of allocator requests the run made; sc == NULL: fault-free counting run */
@@ -174,7 +177,15 @@ static uint64_t run_scenario(const struct scen* s, const struct sched* sc, uint6
       cbor_item_t* it = cbor_load(in, s->n, &res);
       requests = va.requests;
       faulted = va.refused > 0;
-      if (faulted) {
+      if (s->bad) {
+        /* a load that fails anyway: under every refusal schedule it must still fail cleanly - NULL, the refusal or the defect of the input
+         * reported, nothing left allocated */
+        if (sc->mode == VA_NOFAULT) bad_code = it ? -1 : (int)res.error.code;
+        if (it && bad_code != -1) vf_fail(NULL, "cbor_load accepts an input under a refusal schedule (%s, k=%" PRIu64 ") that it rejects without one", mode_name(sc->mode), sc->k);
+        if (!it && faulted && res.error.code != CBOR_ERR_MEMERROR && (int)res.error.code != bad_code)
+          vf_fail(NULL, "rejected input under a refusal schedule (%s, k=%" PRIu64 "): error code %d, neither MEMERROR nor the code %d of the run without refusals", mode_name(sc->mode), sc->k, res.error.code, bad_code);
+        if (!it && va.live) vf_fail(NULL, "%" PRIu64 " blocks leaked by a failing load of a rejected input (%s, k=%" PRIu64 ", error code %d)", va.live, mode_name(sc->mode), sc->k, res.error.code);
+      } else if (faulted) {
         vf_cnt(K_REPORTED, 1);
         if (it) vf_fail(NULL, "cbor_load returned an item although allocation request(s) were refused (%s, k=%" PRIu64 ")", mode_name(sc->mode), sc->k);
         else {
@@ -306,7 +317,7 @@ static void all_schedules(const struct scen* s, uint64_t* req_per_tok) {
     vf_cnt(VC_TRACES, 2);
     vf_cnt(VC_TRANS, 2);
     vf_cnt(VC_DISTINCT, 2);
-    if (vf_tier)
+    if (vf_tier && !s->bad)
       for (uint64_t k2 = k + 1; k2 < N && k2 < k + 40; k2++) {
         struct sched p = {VA_FAIL_PAIR, k, k2};
         run_scenario(s, &p, req_per_tok);
@@ -330,7 +341,16 @@ static void tree_scenarios(cbor_item_t* t, const uint8_t* origin, size_t olen, i
 }
 static void seq_cb(const vf_seq* s, void* ctx) {
   (void)ctx;
-  if (s->status != VD_ACCEPT) return;
+  if (s->status != VD_ACCEPT) { /* rejected or still incomplete: every refusal schedule of the failing load */
+    if (s->ntok > bad_k) return; /* both tiers: sequences of <= 3 heads of Sigma, <= 5 heads of Sigma' */
+    uint8_t bb[12 * 16];
+    memcpy(bb, s->bytes, s->n);
+    struct scen Lb = {.kind = SC_LOAD, .in = bb, .n = s->n, .bad = true};
+    vf_cnt(K_LOAD, 1);
+    vf_cnt(K_BAD_LOADS, 1);
+    all_schedules(&Lb, NULL);
+    return;
+  }
   uint8_t buf[12 * 16];
   size_t off[18];
   memcpy(buf, s->bytes, s->n);
@@ -456,11 +476,12 @@ static void unit(uint64_t u) {
   va_cap = 1 << 20;
   if (u >= dfs_units + con_units + misc_units + vf_corpus_count() + dfs1_units) { deep_unit(u - (dfs_units + con_units + misc_units + vf_corpus_count() + dfs1_units)); return; }
   if (u >= dfs_units + con_units + misc_units + vf_corpus_count()) { /* deeper, over the structural alphabet Sigma' */
+    bad_k = 5;
     vf_dfs_unit(&VF_SIGMA1, vf_tier ? 6 : 5, u - (dfs_units + con_units + misc_units + vf_corpus_count()), VF_L, 64 * 1024, seq_cb, NULL);
     return;
   }
   if (u >= dfs_units + con_units + misc_units) { corpus_unit(u - dfs_units - con_units - misc_units); return; }
-  if (u < dfs_units) { vf_dfs_unit(&VF_SIGMA, dfs_k, u, VF_L, 64 * 1024, seq_cb, NULL); return; }
+  if (u < dfs_units) { bad_k = 3; vf_dfs_unit(&VF_SIGMA, dfs_k, u, VF_L, 64 * 1024, seq_cb, NULL); return; }
   u -= dfs_units;
   if (u < con_units) { constructed_unit(u); return; }
   u -= con_units;
@@ -485,7 +506,8 @@ static void replay(const char* tag, const uint8_t* d, size_t len) {
   va_cap = 1 << 20;
   fprintf(stderr, "scenario %s, schedule: %s (k=%" PRIu64 ", k2=%" PRIu64 ")\n", tag, mode_name((int)mode), k, k2);
   if (kind == SC_LOAD) {
-    struct scen s = {.kind = SC_LOAD, .in = d + 32, .n = len - 32};
+    struct scen s = {.kind = SC_LOAD, .in = d + 32, .n = len - 32, .bad = !strcmp(tag, "fault-loadbad")};
+    if (s.bad) run_scenario(&s, NULL, NULL); /* the error code of the run without refusals is part of the oracle */
     run_scenario(&s, &sc, NULL);
   } else if (kind == SC_BUILDER && which < NBUILDERS) {
     struct scen s = {.kind = SC_BUILDER, .which = (int)which};
@@ -516,7 +538,7 @@ static void replay(const char* tag, const uint8_t* d, size_t len) {
 struct vf_check vf_the_check = {
     .property = "C06",
     .level = "fault_enumeration",
-    .rule = "scenarios: cbor_load of every accepted sequence of the pushdown DFS over Sigma (3/4 heads) and over the structural alphabet Sigma' (5/6 heads), and of every boundary-corpus item of <= 700 bytes; cbor_copy and cbor_serialize_alloc of every tree those loads return and of the "
+    .rule = "scenarios: cbor_load of every sequence of the pushdown DFS (accepted ones judged in full; rejected and incomplete ones must still fail cleanly - NULL, MEMERROR or their own error, nothing left allocated) over Sigma (3/4 heads) and over the structural alphabet Sigma' (5/6 heads), and of every boundary-corpus item of <= 700 bytes; cbor_copy and cbor_serialize_alloc of every tree those loads return and of the "
             "constructed-tree grammar (every tree in the thorough tier, every 16th in the quick tier); all 37 cbor_new_*/cbor_build_* builders; push / set-append / map add / add "
             "chunk / build_tag on containers holding 0..17 entries (crossing every growth step 0,1,2,4,8,16). For each scenario the N requests of the fault-free run are counted, "
             "then every single refusal k < N and every fail-stop suffix k < N is run (thorough: also every pair k < k2 < k+40). evaluations = runs; distinct_nontrivial = distinct "
@@ -529,5 +551,5 @@ struct vf_check vf_the_check = {
     .counters = {[VC_EVAL] = "runs", [VC_DISTINCT] = "distinct_scenario_schedule_cells", [VC_TRANS] = "faulted_runs", [VC_TRACES] = "executed_on_implementation",
                  [K_SCEN] = "scenarios", [K_LOAD] = "load_scenarios", [K_COPY] = "copy_scenarios", [K_SALLOC] = "serialize_alloc_scenarios", [K_BUILD] = "builder_scenarios",
                  [K_GROW] = "growth_scenarios", [K_SINGLE] = "single_refusal_schedules", [K_FAILSTOP] = "fail_stop_schedules", [K_PAIR] = "pair_schedules",
-                 [K_REPORTED] = "runs_with_delivered_refusal", [K_ABSORBED] = "runs_where_schedule_was_not_reached", [K_MAXN] = "sum_over_workers_of_max_requests_per_scenario", [K_DEEP] = "deeply_nested_inputs"},
+                 [K_REPORTED] = "runs_with_delivered_refusal", [K_ABSORBED] = "runs_where_schedule_was_not_reached", [K_MAXN] = "sum_over_workers_of_max_requests_per_scenario", [K_DEEP] = "deeply_nested_inputs", [K_BAD_LOADS] = "rejected_or_incomplete_inputs_loaded_under_every_schedule"},
     .init = init, .units = units, .unit = unit, .replay = replay};
